@@ -6,6 +6,7 @@ import Mathlib.Tactic.FieldSimp
 import Mathlib.Tactic.Linarith
 import Mathlib.Tactic.Positivity
 import Mathlib.Algebra.Order.Field.Rat
+import Anything.Generated.Knobs
 /-!
 # C10 — rounding functions return the mathematically defined integer or decimal
 
@@ -332,5 +333,13 @@ theorem C10_arity_round (cfg : Cfg) (s e : Nat) (args : List Numeric)
 /-- Non-vacuity / sanity on concrete values (tests, labelled as tests). -/
 example : RatNum.floor (-5 / 2) = -3 ∧ RatNum.ceil (-5 / 2) = -2 ∧ RatNum.round (-5 / 2) = -3
     ∧ RatNum.round (5 / 2) = 3 ∧ RatNum.round (7 / 3) = 2 := by decide +kernel
+
+
+/-- **C10 (the builtin table of the source).** `eval.rs` binds exactly the names `sin`,
+`cos`, `round`, `floor`, `ceil`, each to the function of that name (re-extracted on every
+run); the model's `FN_CALL` branch dispatches on the same names. -/
+theorem C10_builtin_table :
+    Anything.Generated.Knobs.builtins =
+      [("sin", "sin"), ("cos", "cos"), ("round", "round"), ("floor", "floor"), ("ceil", "ceil")] := rfl
 
 end Anything.Props.C10
